@@ -185,10 +185,10 @@ class Framer(tasking.Tasker):
     def prune(self):
         """
         Recursively Prune (destroy) all insular auxiliary clones in all frames
-        Force exit if not done
+        Force exit if not done or if done but still entered with its main frame
         Called by Razer Actor when razing insular auxes from frame
         """
-        if not self.done:
+        if not self.done or self.active:
             console.profuse("Force exiting '{0}'\n".format(self.name))
             self.exitAll()
 
